@@ -23,7 +23,7 @@ CONSTRAINED = ("constrained", "constrained_nh", "gaussian_constrained")
 RIEMANNIAN = ("riem_scalar", "riem_diag", "riem_chol", "riem_dense", "riem_softabs")
 CONST_METRICS = (
     "none", "identity", "scaled", "diag_array", "diag", "dense_array", "dense", "chol_lower", "chol_upper", "eig",
-    "block", "lowrank_plus", "lowrank_minus", "softabs_const", "product",
+    "block", "lowrank_plus", "lowrank_minus", "softabs_const", "product", "derived",
 )
 CONSTRAINTS = ("hyperplane", "hyperplanes2", "sphere", "quadric", "two_quadrics", "arctan_sphere", "arctan_quadric", "sine")
 
@@ -324,6 +324,34 @@ def _const_metric(kind: str, dim: int, rng):
         s = (s + s.T) / 2
         coeff = float(rng.uniform(0.5, 3.0))
         return mm.SoftAbsRegularizedPositiveDefiniteMatrix(s.copy(), coeff), softabs_dense(s, coeff)
+    if kind == "derived":
+        # a metric written as an expression: positive multiples, quotients and inverses of a matrix object, possibly one
+        # whose lazily computed factorisation is already in place when the expression is formed
+        from mici import matrices as mm2
+
+        base_kind = str(rng.choice(["dense", "chol_lower", "eig", "diag", "lowrank_plus", "block", "product", "softabs_const"]))
+        m, d = _const_metric(base_kind, dim, rng)
+        ops = []
+        for _ in range(int(rng.integers(1, 4))):
+            op = str(rng.choice(["touch", "scale", "div", "inv", "rscale"]))
+            ops.append(op)
+            if op == "touch":
+                _ = m.sqrt, m.log_abs_det  # noqa: F841
+                if rng.integers(0, 2):
+                    _ = m.inv  # noqa: F841
+            elif op in ("scale", "rscale", "div"):
+                c = float(rng.choice([0.25, 0.5, 2.0, 3.0, 4.0]))
+                if op == "scale":
+                    m, d = c * m, c * d
+                elif op == "rscale":
+                    m, d = m * c, d * c
+                else:
+                    m, d = m / c, d / c
+            else:
+                m, d = m.inv, np.linalg.inv(d)
+        if not isinstance(m, mm2.PositiveDefiniteMatrix):
+            raise TypeError(f"expression {ops} on {base_kind} is not a PositiveDefiniteMatrix but {type(m).__name__}")
+        return m, (d + d.T) / 2
     if kind == "product":
         rect = rng.standard_normal((dim, dim + 2))
         pd, dpd = const_metric("diag", dim + 2, rng)
